@@ -7,7 +7,11 @@ use crate::{AnyStoredVec, Error, Result, Stamp, VecIndex, VecValue, Version};
 
 /// Maximum in-memory cache size before forcing a flush (1 GiB).
 /// Prevents unbounded memory growth when pushing many values without flushing.
+#[cfg(not(feature = "verif"))]
 pub(crate) const MAX_CACHE_SIZE: usize = 1024 * 1024 * 1024;
+#[cfg(feature = "verif")]
+pub(crate) const MAX_CACHE_SIZE: rawdb::verif::Knob<{ rawdb::verif::KNOB_MAX_CACHE_SIZE }> =
+    rawdb::verif::Knob;
 
 /// Typed interface for stored vectors (push, truncate, rollback).
 ///
